@@ -96,14 +96,14 @@ EXTRA = {
  "C09": " A quarter of the cases append a hostile member's whole life cycle: named once with an extreme heartbeat (u64::MAX, 2^63, 0 ...), evaluated dead, forgotten after the dead-node grace period, then named again with equal / lower / higher heartbeats in SYN and SYN-ACK digests. Two victims in three have twelve key-change listeners subscribed; hostile keys mix 1/2/3/4-byte characters.",
  "C18": " Half of the matrix cases end with the ordinary tombstone GC pass one grace period after the calls (the frontier must not move back, plain entries must stay).",
  "C01": " Fair phases alternate between all ordered pairs per round and real-server rounds (node by node: heartbeat, own tombstone GC, SYNs to 1-3 random peers, own evaluation); directed witness: a late joiner catching up over five datagrams with an owner whose last write is a collected deletion while every node collects before each of its rounds. Traces end only on findings for the property being decided.",
- "C08": " For a third of the messages the same thread first decodes damaged variants (cut by one byte, cut in the middle, end marker flipped): decoding is a function of the bytes alone. States of 1-3 MB of compressible key-values in one datagram; every datagram a real server emits over UDP loopback (also after failed sends) is one well-formed message.",
- "C15": " Plus a two-thread scenario (a handle dropped by another thread while a write is being dispatched is never called again); half of the scenarios replicate only after every 2nd / 3rd write (several writes learnt at once).",
+ "C08": " For a third of the messages the same thread first decodes damaged variants (cut by one byte, cut in the middle, end marker flipped): decoding is a function of the bytes alone. States of 1-3 MB of compressible key-values in one datagram; every datagram a real server emits over UDP loopback (also after failed sends) is one well-formed message; digests made of minimal entries only (empty ids) with nothing after them.",
+ "C15": " Plus a two-thread scenario (a handle dropped by another thread while a write is being dispatched is never called again); half of the scenarios replicate only after every 2nd / 3rd write (several writes learnt at once); a churn stress (one thread drops 20,000 handles while another makes 60,000 writes: no call may be lost).",
  "C05": " One catch-up call in four hands a node its OWN entry as a peer holds it (the peer may have collected tombstones first): content and heartbeat of the owner must not move.",
  "C07": " Dense small-budget sweeps: every budget 100..700 over 1-6 members whose delta is a node header plus a lone max-version op or tiny entries, half of them with random ids / generations / 62-bit versions so that blocks are stored raw. Oversize-entry cases: an entry that can never travel (key + value > 65,507 bytes) in the middle of a history; every delta stops right before it. A fourth peer-digest mode announces 5-40 members the sender has never heard of (ids up to 400 bytes): they enter its own digest while it answers.",
  "C10": " A sixth of the histories use members that differ by address only, a fifth spread heartbeat values over the whole u64 range, a fifth configure the extra liveness predicate (READY writes delivered now and then): the verdicts must not depend on it; a third deliver relayed reset deltas (data, not life signs); the first namesake member shares the observer's node id.",
  "C11": " A sixth of the histories use members that differ by address only, a fifth spread heartbeat values over the whole u64 range (a lower value may be lower by more than 2^63). General live claim judged before a removal is accepted: with a sampled gap a after the last dead evaluation and elapsed / min(a, initial) within the threshold the member is live; a missed deadline is also a C11 finding when equal / lower values arrived during the silence.",
  "C14": " Every pair is also run under a 58-byte node id so that the smallest admissible budgets (100..130) cut the delta right after the member header (header-only reset deltas).",
- "C17": " Plus the caller: real gossip servers on a scripted transport under the paused clock whose peers heartbeat, fall silent, are scheduled for deletion and forgotten; the SYN destinations of every round are judged against the live / dead / known / seed sets read just before the round (own address and a seed given by name among the seeds, a seed name that does not resolve, runs longer than the 60 s name refresh, rounds in which every send fails, the seed itself as a dead member, bind address 0.0.0.0 with advertised address 127.0.0.1).",
+ "C17": " Plus the caller: real gossip servers on a scripted transport under the paused clock whose peers heartbeat, fall silent, are scheduled for deletion and forgotten; the SYN destinations of every round are judged against the live / dead / known / seed sets read just before the round (own address and a seed given by name among the seeds, a seed name that does not resolve, runs longer than the 60 s name refresh, rounds in which every send fails, the seed itself as a dead member, another incarnation of the node itself (same address) among the members, bind address 0.0.0.0 with advertised address 127.0.0.1).",
  "C19": " Plus persistently slow transports (every send takes 1.2-4 s for 30-60 virtual seconds, the peer's heartbeats fed through the shared lock once per second): every round still ends with its liveness evaluation, the own heartbeat rises, user access never blocks, and a shutdown requested while the transport is still slow completes within about 100 rounds; bursts of up to 5,000 gossip() requests followed by shutdown().",
 }
 ENGINES_EXTRA = {"E10": ["C19", "C17"]}
